@@ -313,6 +313,24 @@ def run_greenback(req):
             return fn()
         return greenlet.greenlet(below).switch(k - 1, fn)
 
+    awk = req.get("awaitable", 0)
+
+    class ViaWrapper:
+        """an awaitable that is not a coroutine object: __await__ hands out the coroutine's own iterator"""
+
+        def __init__(self, co):
+            self.co = co
+
+        def __await__(self):
+            return self.co.__await__()
+
+    class ViaGenerator(ViaWrapper):
+        def __await__(self):
+            return (yield from self.co.__await__())
+
+    def as_awaitable(co):
+        return [co, ViaWrapper(co), ViaGenerator(co)][awk]
+
     def make_sync(i):
         def sync_fn():
             levels.append(sys._getframe())
@@ -322,7 +340,7 @@ def run_greenback(req):
                 if not spawn:
                     greenback.await_(trio.sleep_forever())
                 return
-            below(spawn, lambda: greenback.await_(make_async(i + 1)()))
+            below(spawn, lambda: greenback.await_(as_awaitable(make_async(i + 1)())))
         return sync_fn
 
     def make_async(i):
@@ -344,8 +362,14 @@ def run_greenback(req):
         async with trio.open_nursery() as n:
             async def runner():
                 state["task"] = trio.lowlevel.current_task()
-                await greenback.ensure_portal()
-                await fn()
+                portal = req.get("portal", "ensure")
+                if portal == "ensure":
+                    await greenback.ensure_portal()
+                    await fn()
+                elif portal == "run":
+                    await greenback.with_portal_run(fn)
+                else:       # the chain starts with a synchronous function run in a portal of its own
+                    await greenback.with_portal_run_sync(make_sync(0))
             n.start_soon(runner)
             await trio.testing.wait_all_tasks_blocked(0.01)
             out["warnings"] = []
@@ -387,8 +411,10 @@ def _bridging_hidden(st, tag):
     if idx:
         for i in range(idx[0], idx[-1]):
             f = st.frames[i]
-            if f.filename == HERE and f.funcname in ("below", "<lambda>"):
+            if f.filename == HERE and f.funcname in ("below", "<lambda>", "__await__"):
                 continue      # the harness's own greenlet-spawning helper: part of the task's synchronous code
+            if f.funcname == "adapt_awaitable" and (f.modname or "").startswith("greenback"):
+                continue      # greenback's coroutine around a non-coroutine awaitable: the repository's own test shows it
             if i not in idx and not f.hide:
                 out.append({"kind": "bridging_internal_not_hidden", "tag": tag, "frame": f.funcname,
                             "module": f.modname, "all": [[x.funcname, x.hide] for x in st.frames]})
